@@ -867,9 +867,19 @@ impl Ctx {
         let mut info = self.replay_info(stream, index);
         info["fault"] = json!(class);
         info["body"] = json!(short(&text));
+        // The statement demands acceptance and preservation of spec bodies; of the malformed stream it can only demand what
+        // follows from that: a body whose member has the WRONG JSON KIND (or lacks `message`) cannot be "accepted and
+        // preserved". Integers beyond the i32 of the current types, `1.0` for an integer and a member written twice are
+        // limits of the current types / of serde's duplicate check: what happens there is compared with the model below (a
+        // broken tie if it changes), not demanded.
+        let type_limit = ["2^31", "-2^31-1", "i64max", "i64min", "u64max", ":repeated", ":float-integral", ":float-negzero"].iter().any(|w| class.contains(w));
         if let Ok(r) = &got {
             info["got"] = dump_response(r);
-            self.rep.fail(&format!("malformed-accepted:{}", class), info.clone());
+            if !type_limit {
+                self.rep.fail(&format!("malformed-accepted:{}", class), info.clone());
+            } else {
+                self.rep.count("malformed:type-limit-accepted");
+            }
         }
         let m = self.model_de("de-response", &body);
         let agree = m.map(|m| m == got.as_ref().ok().map(|r| scrub(&dump_response(r))));
